@@ -1092,6 +1092,13 @@ fn run_project(cx: &mut Ctx, rng: &mut Rng) {
     if imp != expect_proj {
         cx.rep.fail("impl_vs_spec", "project", &input, &imp, &model, &expect_proj);
     }
+    // the same project embedded in a workbook and read through `Reader::vba_project`
+    let kind = *rng.pick(&["xlsm", "xlsb", "xls"]);
+    let seen = through_reader(kind, &file, &streams, rng);
+    cx.rep.count(&format!("project:through-reader:{kind}"));
+    if seen != expect_proj {
+        cx.rep.fail("impl_vs_spec", &format!("project-through-{kind}"), &input, &seen, &model, &expect_proj);
+    }
 }
 
 /// single faults on a valid dir stream (C06 territory; outcome classes impl vs model)
@@ -1127,6 +1134,104 @@ fn run_dir_malformed(cx: &mut Ctx, rng: &mut Rng) {
     };
     cx.rep.case(&format!("dir-malformed {kind}"), true);
     run_dirwalk(cx, &v, kind, None);
+}
+
+// ---------------------------------------------------------------------------------------------
+// C'. the same project seen through the workbook readers (`Reader::vba_project`)
+
+fn template(path: &str) -> &'static Vec<(String, Vec<u8>)> {
+    use std::sync::OnceLock;
+    static XLSM: OnceLock<Vec<(String, Vec<u8>)>> = OnceLock::new();
+    static XLSB: OnceLock<Vec<(String, Vec<u8>)>> = OnceLock::new();
+    let cell = if path.ends_with(".xlsm") { &XLSM } else { &XLSB };
+    cell.get_or_init(|| {
+        let mut out = vec![];
+        let f = std::fs::File::open(path).expect("template");
+        let mut z = zip::ZipArchive::new(f).expect("template zip");
+        for i in 0..z.len() {
+            let mut e = z.by_index(i).unwrap();
+            if e.is_dir() {
+                continue;
+            }
+            let mut buf = vec![];
+            e.read_to_end(&mut buf).unwrap();
+            out.push((e.name().to_string(), buf));
+        }
+        out
+    })
+}
+
+fn xls_workbook_stream() -> &'static Vec<u8> {
+    use std::sync::OnceLock;
+    static WB: OnceLock<Vec<u8>> = OnceLock::new();
+    WB.get_or_init(|| {
+        let bytes = std::fs::read("/repo/tests/any_sheets.xls").expect("xls template");
+        let mut cur = Cursor::new(&bytes[..]);
+        let mut cfb = Cfb::new(&mut cur, bytes.len()).expect("xls template cfb");
+        cfb.get_stream("Workbook", &mut cur).expect("Workbook stream")
+    })
+}
+
+fn zip_with_project(path: &str, bin: &[u8], rng: &mut Rng) -> Vec<u8> {
+    use std::io::Write;
+    let mut w = zip::ZipWriter::new(Cursor::new(Vec::new()));
+    let mut wrote = false;
+    for (name, data) in template(path) {
+        let method = if rng.chance(1, 2) { zip::CompressionMethod::Stored } else { zip::CompressionMethod::Deflated };
+        let opt = zip::write::SimpleFileOptions::default().compression_method(method);
+        w.start_file(name.as_str(), opt).unwrap();
+        if name == "xl/vbaProject.bin" {
+            w.write_all(bin).unwrap();
+            wrote = true;
+        } else {
+            w.write_all(data).unwrap();
+        }
+    }
+    if !wrote {
+        let opt = zip::write::SimpleFileOptions::default().compression_method(zip::CompressionMethod::Deflated);
+        w.start_file("xl/vbaProject.bin", opt).unwrap();
+        w.write_all(bin).unwrap();
+    }
+    w.finish().unwrap().into_inner()
+}
+
+/// the project as `Reader::vba_project` of the given workbook kind shows it
+fn through_reader(kind: &str, bin: &[u8], streams: &[(String, Vec<u8>)], rng: &mut Rng) -> String {
+    use calamine::{Reader, Xls, Xlsb, Xlsx};
+    fn show<E: std::fmt::Debug>(r: Option<Result<std::borrow::Cow<'_, VbaProject>, E>>) -> String {
+        match r {
+            None => "no-project".into(),
+            Some(Ok(p)) => canon_project(&p),
+            Some(Err(e)) => format!("reader-error:{e:?}"),
+        }
+    }
+    let res = guarded(|| match kind {
+        "xlsm" => {
+            let file = zip_with_project("/repo/tests/vba.xlsm", bin, rng);
+            match Xlsx::new(Cursor::new(file)) {
+                Ok(mut x) => show(x.vba_project()),
+                Err(e) => format!("open-error:{e:?}"),
+            }
+        }
+        "xlsb" => {
+            let file = zip_with_project("/repo/tests/any_sheets.xlsb", bin, rng);
+            match Xlsb::new(Cursor::new(file)) {
+                Ok(mut x) => show(x.vba_project()),
+                Err(e) => format!("open-error:{e:?}"),
+            }
+        }
+        _ => {
+            let mut all = streams.to_vec();
+            all.push(("Workbook".into(), xls_workbook_stream().clone()));
+            all.push(("_VBA_PROJECT_CUR".into(), vec![]));
+            let file = write_cfb(&all, &CfbOpts::default(), rng);
+            match Xls::new(Cursor::new(file)) {
+                Ok(mut x) => show(x.vba_project()),
+                Err(e) => format!("open-error:{e:?}"),
+            }
+        }
+    });
+    res.unwrap_or_else(|_| "panic".into())
 }
 
 // ---------------------------------------------------------------------------------------------
@@ -1204,6 +1309,23 @@ fn run_fixture(cx: &mut Ctx, name: &str, bin: &[u8]) {
     let model = canon_model_project(&reply).unwrap_or_else(|e| e);
     if imp != model {
         cx.rep.fail("impl_vs_model", "fixture-project", &format!("fixture {name}"), &imp, &model, "");
+    }
+    // and through the workbook reader of the fixture itself
+    let seen = guarded(|| {
+        use calamine::Reader;
+        match calamine::open_workbook_auto(format!("/repo/tests/{name}")) {
+            Ok(mut wb) => match wb.vba_project() {
+                Some(Ok(p)) => canon_project(&p),
+                Some(Err(e)) => format!("reader-error:{e:?}"),
+                None => "no-project".into(),
+            },
+            Err(e) => format!("open-error:{e:?}"),
+        }
+    })
+    .unwrap_or_else(|_| "panic".into());
+    cx.rep.count("fixture:through-reader");
+    if seen != imp {
+        cx.rep.fail("impl_vs_model", "fixture-through-reader", &format!("fixture {name}"), &seen, &model, &imp);
     }
 }
 
@@ -1314,7 +1436,7 @@ fn main() {
     // the generated streams are spread over worker threads, each with its own driver and its own PRNG
     // (seeded from --seed and the thread index, so a seed replays exactly)
     let n = args.count(20_000, 2_000_000);
-    let threads: u64 = if args.thorough() { std::thread::available_parallelism().map(|x| x.get() as u64).unwrap_or(4).clamp(2, 16) } else { 4 };
+    let threads: u64 = if args.thorough() { std::thread::available_parallelism().map(|x| x.get() as u64).unwrap_or(4).clamp(2, 16) } else { 8 };
     let per = n.div_ceil(threads);
     {
         let mut cx = Ctx { drv: &mut drv, rep: &mut rep };
